@@ -17,13 +17,16 @@ pub enum Chunk {
     Wide(String),
     /// text wrapped in an SGR colour sequence and a reset
     Sgr(u8, String),
+    /// a sequence of code points whose width belongs to the sequence, not to its parts: a heart with the
+    /// emoji variation selector (two columns), a family joined by zero-width joiners (two columns)
+    Seq(String),
 }
 
 pub fn content_of(chunks: &[Chunk]) -> String {
     let mut s = String::new();
     for c in chunks {
         match c {
-            Chunk::Ascii(t) | Chunk::Narrow(t) | Chunk::Wide(t) => s.push_str(t),
+            Chunk::Ascii(t) | Chunk::Narrow(t) | Chunk::Wide(t) | Chunk::Seq(t) => s.push_str(t),
             Chunk::Sgr(n, t) => {
                 s.push_str(&format!("\x1b[{}m", 30 + n % 8));
                 s.push_str(t);
@@ -175,6 +178,12 @@ fn run_pad(c: &PadCase) -> CaseResult {
         .ok_or_else(|| Fail::new("brackets", format!("template {template:?}: line {line:?} lost the surrounding literal brackets")))?;
     let align = c.align.unwrap_or(Align::Left);
     let content_cols = model::cols(&content);
+    if c.chunks.iter().any(|k| matches!(k, Chunk::Seq(_))) && c.truncate && (c.width as usize) < content_cols {
+        // (where a cut falls inside such a sequence is not defined: only contents that fit are judged)
+        let mut v = Verdict::default();
+        v.label("sequence_content_truncated_not_judged");
+        return Ok(v);
+    }
     let kind = if c.truncate && (c.width as usize) < content_cols { "truncate" } else { "pad" };
     model::check_pad(&content, c.width as usize, align, c.truncate, inner).map_err(|m| Fail::new(kind, format!("{template:?}: {m}")))?;
     let mut v = Verdict::default();
@@ -183,11 +192,21 @@ fn run_pad(c: &PadCase) -> CaseResult {
     v.label_if(tab_width.is_some(), "content_with_a_tab");
     v.label_if(tab_width.is_some() && c.via == Via::Custom, "custom_key_writes_a_tab");
     v.label_if(c.via == Via::CustomNamedEta, "custom_key_under_a_built_in_name");
+    v.label_if(c.chunks.iter().any(|k| matches!(k, Chunk::Seq(_))), "width_that_belongs_to_a_sequence");
     Ok(v)
 }
 
 fn pad_strategy() -> BoxedStrategy<PadCase> {
-    (proptest::collection::vec(chunk_strategy(), 0..5), any::<u16>(), 0u8..10, -3i32..=3)
+    let seq = prop_oneof![Just("\u{2764}\u{fe0f}"), Just("\u{1f468}\u{200d}\u{1f469}\u{200d}\u{1f467}"), Just("\u{2600}\u{fe0f}"), Just("\u{1f3f3}\u{fe0f}\u{200d}\u{1f308}")].prop_map(|t| Chunk::Seq(t.to_string()));
+    // (one field content in eight holds such a sequence)
+    (proptest::collection::vec(chunk_strategy(), 0..5), any::<u16>(), 0u8..10, -3i32..=3, proptest::option::weighted(0.12, (seq, any::<u8>())))
+        .prop_map(|(mut chunks, big, sel, delta, seq)| {
+            if let Some((q, at)) = seq {
+                let i = at as usize % (chunks.len() + 1);
+                chunks.insert(i, q);
+            }
+            (chunks, big, sel, delta)
+        })
         .prop_flat_map(|(chunks, big, sel, delta)| {
             let cols = model::cols(&content_of(&chunks)) as i32;
             let width = match sel {
@@ -397,7 +416,7 @@ pub fn property() -> Property {
                 cases: |t| t.pick(36_000, 2_000_000),
                 run: run_pad,
                 signature: no_signature,
-                essential: &["truncation_path", "truncation_non_ascii_or_sgr", "padding_path", "overflow_unshortened", "double_width", "sgr", "second_field_of_the_template", "bar_key_as_field", "bar_cells_leave_a_column_over", "content_with_a_tab", "custom_key_writes_a_tab", "custom_key_under_a_built_in_name"],
+                essential: &["truncation_path", "truncation_non_ascii_or_sgr", "padding_path", "overflow_unshortened", "double_width", "sgr", "second_field_of_the_template", "bar_key_as_field", "bar_cells_leave_a_column_over", "content_with_a_tab", "custom_key_writes_a_tab", "custom_key_under_a_built_in_name", "width_that_belongs_to_a_sequence"],
                 workers: w,
                 decode: Some(decode_pad),
             }),
